@@ -1,7 +1,7 @@
 (* C03 - which member of the model family are the four methods regenerated from the source?
    (executable; read by the driver with vm_compute, proved correct in Proofs/C03_Gen.v) *)
 From Coq Require Import ZArith QArith List Bool String.
-From Verif Require Import Model.C03_TimeArith Gen.C03_TimeArith.
+From Verif Require Import Model.C03_TimeArith Model.C03_Formats Gen.C03_TimeArith.
 Import ListNotations.
 
 Definition gen_quirks : option quirks := classify_methods gen_method.
@@ -22,3 +22,7 @@ Definition delta_class_for_every_scale : bool :=
 (* the four duration formats named by the property exist *)
 Definition four_delta_formats : bool :=
   forallb (fun s => existsb (String.eqb s) gen_delta_formats) ["days"; "seconds"; "jd"; "timedelta"]%string.
+
+(* the bodies of the four TimeDelta*._to_jds/_from_jds read from the source are to_jds / from_jds (1 = yes) *)
+Definition gen_formats_ok : bool := fmt_srcs_ok gen_delta_fmt_srcs.
+Definition gen_formats_code : Z := if gen_formats_ok then 0%Z else (-1)%Z.
